@@ -221,6 +221,43 @@ func runSign() {
 		}
 	}
 
+	// ---- message-length sweep (block boundaries of SHA-512 and of any buffering) and bulk round trips ---
+	if prop == "C02" || prop == "C03" || prop == "" {
+		var lens []int
+		for k := uint(5); k <= 16; k++ {
+			lens = append(lens, 1<<k-1, 1<<k, 1<<k+1)
+		}
+		lens = append(lens, 4000, 4032, 4033, 4064, 4095, 4097, 5000, 9000, 70000)
+		for i, n := range lens {
+			p := pairs[i%len(pairs)]
+			if p.variant == "ph" {
+				p = pairs[0]
+			}
+			all = append(all, doSign(r.Bytes(32), p, r.Bytes(n)))
+		}
+		bulk := 1500
+		if thorough {
+			bulk = 20000
+		}
+		if *fCfg != "default" {
+			bulk *= 2 // the 32-bit scalar arithmetic is reached only here
+		}
+		for i := 0; i < bulk; i++ {
+			p := pairs[0]
+			if i%8 == 1 {
+				p = pairs[1+r.Intn(len(pairs)-1)]
+			}
+			n := r.Intn(96)
+			if p.variant == "ph" {
+				n = 64
+			}
+			s := doSign(r.Bytes(32), p, r.Bytes(n))
+			if i%16 == 0 {
+				all = append(all, s)
+			}
+		}
+	}
+
 	// ---- C03: every produced signature verifies everywhere --------------------------------
 	if prop == "C03" || prop == "" {
 		for _, s := range all {
